@@ -559,6 +559,198 @@ theorem build_rejects_ext_dup_interface (doc : Doc) (add : List TypeD) (t : Type
   rw [hs.interfaces hk] at this
   exact this hdup
 
+/-! ### duplicate members AFTER MERGING: between two extension blocks, or inside one block -/
+
+theorem appendNew_ok_nodup {α} (errE : Err) (name : α → String) : ∀ (xs acc r : List α), appendNew errE name acc xs = .ok r →
+    (xs.map name).Nodup := by
+  intro xs
+  induction xs with
+  | nil => intro _ _ _; simp
+  | cons x xs ih =>
+    intro acc r h
+    have hd := appendNew_ok_disjoint errE name (x :: xs) acc r h
+    simp only [appendNew] at h
+    split at h
+    · cases h
+    · have hx := appendNew_ok_disjoint errE name xs (acc ++ [x]) r h
+      refine List.nodup_cons.mpr ⟨fun hm => ?_, ih _ _ h⟩
+      obtain ⟨y, hy, hyn⟩ := List.mem_map.mp hm
+      exact hx y hy x (by simp) hyn.symm
+
+/-- the merge loop succeeds only if the members of ALL the blocks together have pairwise different names -/
+theorem mergeFold_ok_nodup {α β} (bf : α → R β) (na : α → String) (nb : β → String) (hbf : ∀ x y, bf x = .ok y → nb y = na x)
+    (errE : Err) (sel : TypeDef → List α) : ∀ (es : List TypeDef) (init r : List β),
+    es.foldlM (fun acc e => do let new ← (sel e).mapM bf; appendNew errE nb acc new) init = .ok r →
+    ((es.flatMap sel).map na).Nodup := by
+  intro es
+  induction es with
+  | nil => intro _ _ _; simp
+  | cons e es ih =>
+    intro init r h
+    have hdis := mergeFold_ok_disjoint bf na nb hbf errE sel (e :: es) init r h
+    rw [List.foldlM_cons] at h
+    obtain ⟨acc1, h1, h2⟩ := bind_ok _ _ _ h
+    obtain ⟨new, hnew, happ⟩ := bind_ok _ _ _ h1
+    have hnames := mapM_names bf na nb hbf _ _ hnew
+    have hn1 := appendNew_ok_nodup errE nb new init acc1 happ
+    rw [hnames] at hn1
+    have hacc := appendNew_ok errE nb new init acc1 happ
+    have hrest := mergeFold_ok_disjoint bf na nb hbf errE sel es acc1 r h2
+    rw [List.flatMap_cons, List.map_append]
+    refine List.nodup_append.mpr ⟨hn1, ih acc1 r h2, ?_⟩
+    intro a ha b hb hab
+    subst hab
+    obtain ⟨f, hf, hfn⟩ := List.mem_map.mp hb
+    obtain ⟨e', he', hfe⟩ := List.mem_flatMap.mp hf
+    have : a ∈ new.map nb := by rw [hnames]; exact ha
+    obtain ⟨y, hy, hyn⟩ := List.mem_map.mp this
+    exact hrest e' he' f hfe y (by rw [hacc]; exact List.mem_append_right _ hy) (hyn.trans hfn.symm)
+
+theorem namesFold_ok_nodup (env : Env) (errE : Err) (sel : TypeDef → List String) : ∀ (es : List TypeDef) (init r : List String),
+    es.foldlM (fun acc e => do checkNames env (sel e); appendNew errE id acc (sel e)) init = .ok r →
+    (es.flatMap sel).Nodup := by
+  intro es
+  induction es with
+  | nil => intro _ _ _; simp
+  | cons e es ih =>
+    intro init r h
+    rw [List.foldlM_cons] at h
+    obtain ⟨acc1, h1, h2⟩ := bind_ok _ _ _ h
+    obtain ⟨_, _, happ⟩ := bind_ok _ _ _ h1
+    have hn1 := appendNew_ok_nodup errE id (sel e) init acc1 happ
+    simp only [List.map_id_fun', id_eq, List.map_id] at hn1
+    have hacc := appendNew_ok errE id (sel e) init acc1 happ
+    have hrest := namesFold_ok_disjoint env errE sel es acc1 r h2
+    rw [List.flatMap_cons]
+    refine List.nodup_append.mpr ⟨hn1, ih acc1 r h2, ?_⟩
+    intro a ha b hb hab
+    subst hab
+    obtain ⟨e', he', hfe⟩ := List.mem_flatMap.mp hb
+    exact hrest e' he' a hfe (by rw [hacc]; exact List.mem_append_right _ ha)
+
+/-- the extension blocks of `n` among the collected extensions are ALL the extension blocks of `n` in the document, when
+    a live type has that name -/
+theorem typeExtensions_filter (live : Live) (doc : Doc) (n : String) (h : live.types.any (·.name == n) = true) :
+    (typeExtensions live doc).filter (·.name == n) = (typeExts doc).filter (·.name == n) := by
+  unfold typeExtensions typeExts
+  induction doc with
+  | nil => rfl
+  | cons d ds ih =>
+    cases d <;> simp only [List.filterMap_cons, ih]
+    case ext e =>
+      by_cases hn : (e.name == n) = true
+      · have hen : e.name = n := by simpa using hn
+        have : (isDefaultName e.name || live.types.any (·.name == e.name)) = true := by rw [hen, h]; simp
+        simp only [this, if_true, List.filter_cons, hn, ih]
+      · have hn' : (e.name == n) = false := by simpa using hn
+        by_cases hc : (isDefaultName e.name || live.types.any (·.name == e.name)) = true
+        · simp only [hc, if_true, List.filter_cons, hn', Bool.false_eq_true, if_false, ih]
+        · simp only [hc, if_false, List.filter_cons, hn', Bool.false_eq_true, ih]
+
+/-- the extension blocks of the definition `t`, in document order -/
+def blocksOf (doc : Doc) (t : TypeDef) : List TypeDef := (typeExts doc).filter (·.name == t.name)
+
+/-- a successful `build`: the live type of `t` passed the extension step against exactly the blocks `blocksOf doc t` -/
+theorem build_ok_extension_blocks (doc : Doc) (add : List TypeD) (s : SchemaD) (h : build doc false add = .ok s)
+    (t : TypeDef) (ht : t ∈ typeDefs doc) (hadd : t.name ∉ add.map (·.name)) (hne : blocksOf doc t ≠ []) :
+    ∃ bt r exts eX hide, buildTypeDef (Env.of (typeDefs doc) add) t = .ok bt ∧ exts.filter (·.name == bt.name) = blocksOf doc t ∧
+      extendTypeX (Env.of (typeDefs doc) add) eX hide exts bt = .ok r := by
+  obtain ⟨c, live, hc, hb, hx⟩ := build_ok_inv doc false add s h
+  obtain ⟨live', hx⟩ := hx rfl
+  obtain ⟨hT, hD⟩ := collect_exact doc c hc
+  have hN := (collect_ok_rules doc c hc).2.2.2
+  obtain ⟨dirs, built, roots, _, hbuilt, _, hlive⟩ := buildCollected_ok_inv c add _ live hb
+  rw [hT] at hbuilt hx
+  obtain ⟨o, ho, hbt⟩ := all₂_mem_left _ _ _ (mapM_forall₂ _ _ _ hbuilt) t ht
+  unfold buildType at hbt
+  have hfa := findAdditional_none (typeDefs doc) add t.name hadd
+  simp only [hN t ht, Bool.false_eq_true, if_false, hfa] at hbt
+  obtain ⟨bt, hbt', ho'⟩ := bind_ok _ _ _ hbt
+  have := ok_inj ho'; subst this
+  clear hbt
+  have hshape := buildTypeDef_shape _ _ _ hbt'
+  have hbtl : bt ∈ live.types := by
+    rw [hlive]; exact List.mem_append_left _ (List.mem_filterMap.mpr ⟨some bt, ho, rfl⟩)
+  have hany : live.types.any (·.name == t.name) = true := List.any_eq_true.mpr ⟨bt, hbtl, by simp [hshape.1]⟩
+  have hfil := typeExtensions_filter live doc t.name hany
+  unfold extendSchema at hx
+  simp only [] at hx
+  have hnonempty : ((typeExtensions live doc).isEmpty && (schemaExtensions doc).isEmpty) = false := by
+    cases hh : typeExtensions live doc with
+    | nil => rw [hh] at hfil; exact absurd hfil.symm hne
+    | cons _ _ => rfl
+  simp only [hnonempty, Bool.false_eq_true, if_false] at hx
+  obtain ⟨_, _, hx⟩ := bind_ok _ _ _ hx
+  obtain ⟨checked, hchecked, _⟩ := bind_ok _ _ _ hx
+  obtain ⟨r, hr⟩ := mapM_all_ok _ _ _ hchecked bt hbtl
+  exact ⟨bt, r, _, _, _, hbt', by rw [hshape.1]; exact hfil, hr⟩
+
+/-- **two extension blocks of one object / interface type (or one block) that declare the same field name ⇒ rejected** -/
+theorem build_rejects_ext_repeated_field (doc : Doc) (add : List TypeD) (t : TypeDef) (ht : t ∈ typeDefs doc)
+    (hadd : t.name ∉ add.map (·.name)) (hk : t.kind = .object ∨ t.kind = .interface)
+    (hdup : ¬ (((blocksOf doc t).flatMap (·.fields)).map (·.name)).Nodup) : Rejected doc false add := by
+  refine rejected_of_not_ok doc false add fun s hs => hdup ?_
+  have hne : blocksOf doc t ≠ [] := fun e => hdup (by rw [e]; simp)
+  obtain ⟨bt, r, exts, eX, hide, hbt, hfil, hr⟩ := build_ok_extension_blocks doc add s hs t ht hadd hne
+  have hshape := buildTypeDef_shape _ _ _ hbt
+  unfold extendTypeX at hr
+  simp only [] at hr
+  obtain ⟨_, _, hr⟩ := bind_ok _ _ _ hr
+  rw [hfil] at hr
+  rcases hk with hk | hk <;> rw [hshape.2.1, hk] at hr <;> simp only [] at hr
+  · obtain ⟨fs, hfs, _⟩ := bind_ok _ _ _ hr
+    exact mergeFold_ok_nodup (buildFieldX _ eX hide) (·.name) (·.name) (buildFieldX_name _ eX hide) (.lib .ext) (·.fields) _ _ _ hfs
+  · obtain ⟨fs, hfs, _⟩ := bind_ok _ _ _ hr
+    exact mergeFold_ok_nodup (buildFieldX _ eX hide) (·.name) (·.name) (buildFieldX_name _ eX hide) (.lib .ext) (·.fields) _ _ _ hfs
+
+/-- **… the same enum value in two extension blocks of one enum ⇒ rejected** -/
+theorem build_rejects_ext_repeated_enum_value (doc : Doc) (add : List TypeD) (t : TypeDef) (ht : t ∈ typeDefs doc)
+    (hadd : t.name ∉ add.map (·.name)) (hk : t.kind = .enum)
+    (hdup : ¬ (((blocksOf doc t).flatMap (·.values)).map (·.name)).Nodup) : Rejected doc false add := by
+  refine rejected_of_not_ok doc false add fun s hs => hdup ?_
+  have hne : blocksOf doc t ≠ [] := fun e => hdup (by rw [e]; simp)
+  obtain ⟨bt, r, exts, eX, hide, hbt, hfil, hr⟩ := build_ok_extension_blocks doc add s hs t ht hadd hne
+  have hshape := buildTypeDef_shape _ _ _ hbt
+  unfold extendTypeX at hr
+  simp only [] at hr
+  obtain ⟨_, _, hr⟩ := bind_ok _ _ _ hr
+  rw [hfil, hshape.2.1, hk] at hr
+  simp only [] at hr
+  obtain ⟨fs, hfs, _⟩ := bind_ok _ _ _ hr
+  exact mergeFold_ok_nodup buildEnumValue (·.name) (·.name) buildEnumValue_name (.lib .ext) (·.values) _ _ _ hfs
+
+/-- **… the same input field in two extension blocks of one input type ⇒ rejected** -/
+theorem build_rejects_ext_repeated_input_field (doc : Doc) (add : List TypeD) (t : TypeDef) (ht : t ∈ typeDefs doc)
+    (hadd : t.name ∉ add.map (·.name)) (hk : t.kind = .input)
+    (hdup : ¬ (((blocksOf doc t).flatMap (·.inputFields)).map (·.name)).Nodup) : Rejected doc false add := by
+  refine rejected_of_not_ok doc false add fun s hs => hdup ?_
+  have hne : blocksOf doc t ≠ [] := fun e => hdup (by rw [e]; simp)
+  obtain ⟨bt, r, exts, eX, hide, hbt, hfil, hr⟩ := build_ok_extension_blocks doc add s hs t ht hadd hne
+  have hshape := buildTypeDef_shape _ _ _ hbt
+  unfold extendTypeX at hr
+  simp only [] at hr
+  obtain ⟨_, _, hr⟩ := bind_ok _ _ _ hr
+  rw [hfil, hshape.2.1, hk] at hr
+  simp only [] at hr
+  obtain ⟨fs, hfs, _⟩ := bind_ok _ _ _ hr
+  exact mergeFold_ok_nodup (buildArgumentX _ eX hide) (·.name) (·.name) (buildArgumentX_name _ eX hide) (.lib .ext) (·.inputFields) _ _ _ hfs
+
+/-- **… the same member in two extension blocks of one union ⇒ rejected** -/
+theorem build_rejects_ext_repeated_union_member (doc : Doc) (add : List TypeD) (t : TypeDef) (ht : t ∈ typeDefs doc)
+    (hadd : t.name ∉ add.map (·.name)) (hk : t.kind = .union)
+    (hdup : ¬ ((blocksOf doc t).flatMap (·.members)).Nodup) : Rejected doc false add := by
+  refine rejected_of_not_ok doc false add fun s hs => hdup ?_
+  have hne : blocksOf doc t ≠ [] := fun e => hdup (by rw [e]; simp)
+  obtain ⟨bt, r, exts, eX, hide, hbt, hfil, hr⟩ := build_ok_extension_blocks doc add s hs t ht hadd hne
+  have hshape := buildTypeDef_shape _ _ _ hbt
+  unfold extendTypeX at hr
+  simp only [] at hr
+  obtain ⟨_, _, hr⟩ := bind_ok _ _ _ hr
+  rw [hfil, hshape.2.1, hk] at hr
+  simp only [] at hr
+  obtain ⟨fs, hfs, _⟩ := bind_ok _ _ _ hr
+  exact namesFold_ok_nodup _ (.lib .ext) (·.members) _ _ _ hfs
+
 /-! ### non-vacuity: each family of hypotheses has an instance (and the real builder agrees: corpus/C11/reject_*.json) -/
 
 def dupTypeDoc : Doc := [.type exQuery, .type exQuery]
@@ -600,6 +792,10 @@ def dupFieldDoc : Doc := [.type exQuery, .ext exQuery]
 example : Rejected dupFieldDoc false [] :=
   build_rejects_ext_dup_field dupFieldDoc [] exQuery (List.Mem.head _) (by simp) (Or.inl rfl) exQuery (List.Mem.head _) rfl
     { name := "a", type := .named "Int" } (List.Mem.head _) (by decide)
+
+def repeatedFieldDoc : Doc := [.type exQuery, .ext exExt, .ext exExt]
+example : Rejected repeatedFieldDoc false [] :=
+  build_rejects_ext_repeated_field repeatedFieldDoc [] exQuery (List.Mem.head _) (by simp) (Or.inl rfl) (by decide)
 
 /-- the classes the real builder raises on these documents, evaluated by the kernel on the model -/
 example : (match build wrongKindDoc with | .error (.lib .ext) => true | _ => false) = true := by decide
